@@ -208,6 +208,10 @@ def _collection_axioms(e):
     }
 
 
+SEQ_TOREAL = z3.Function("seq_toreal", z3.ArraySort(I, I), z3.ArraySort(I, R))     # a list of ints read as a list of floats
+_sa, _sj = z3.Const("_sa", z3.ArraySort(I, I)), z3.Int("_sj")
+THEORY["seq_toreal_def"] = z3.ForAll([_sa, _sj], SEQ_TOREAL(_sa)[_sj] == z3.ToReal(_sa[_sj]), patterns=[SEQ_TOREAL(_sa)[_sj]])
+
 EXTRA = {}    # name -> axiom, registered by contract modules (assumed properties of uncontracted code; listed as trusted)
 
 
